@@ -265,6 +265,65 @@ export async function run(ctx) {
           await judge(ctx, { files: { "entry.ts": text }, settings: { string_formats: [], number_formats: [] } }, `grid:${cn}/${on}${mutual ? "/mutual" : ""}`);
         }
   }
+  // every (type of empty or collapsing meaning) x (position) combination: the places where a
+  // simplification step may leave a node with no members behind
+  {
+    const degenerate = [
+      ["never-union", "never | never"],
+      ["never-union-3", "never | never | never"],
+      ["generic-never-union", "Either<never, never>"],
+      ["indexed-never-props", '{ a: never; b: never; c: string }["a" | "b"]'],
+      ["disjoint-intersection", "string & number"],
+      ["disjoint-literals", '"a" & "b"'],
+      ["exclude-all", "Exclude<string, string>"],
+      ["exclude-all-literals", 'Exclude<"a" | "b", "a" | "b">'],
+      ["extract-none", "Extract<string, number>"],
+      ["union-of-empties", 'Exclude<"a", "a"> | Extract<1, 2>'],
+      ["keyof-empty", "keyof {}"],
+      ["never-and", "never & string"],
+      ["never-tuple", "[never]"],
+      ["never-array", "never[]"],
+      ["record-never-key", "Record<never, string>"],
+      ["empty-object", "{}"],
+      ["same-twice", "null | null"],
+      ["literal-twice", "1 | 1"],
+      ["unknown-twice", "unknown | unknown"],
+      ["either-same", "Either<string, string>"],
+      ["conditional-never", "never extends string ? 1 : 2"],
+      ["empty-enum-like", 'Exclude<E, E.A>'],
+    ];
+    const positions = [
+      ["top", (t) => t],
+      ["alias", (t) => "D"],
+      ["property", (t) => `{ p: ${t} }`],
+      ["optional-property", (t) => `{ p?: ${t} }`],
+      ["array", (t) => `(${t})[]`],
+      ["tuple", (t) => `[string, ${t}]`],
+      ["tuple-rest", (t) => `[string, ...(${t})[]]`],
+      ["record-value", (t) => `Record<string, ${t}>`],
+      ["index-signature", (t) => `{ [k: string]: ${t} }`],
+      ["union-member", (t) => `string | (${t})`],
+      ["union-with-object", (t) => `{ k: "a" } | (${t})`],
+      ["intersection-member", (t) => `{ a: 1 } & (${t})`],
+      ["generic-argument", (t) => `Box<${t}>`],
+      ["set", (t) => `Set<${t}>`],
+      ["map-value", (t) => `Map<string, ${t}>`],
+      ["partial", (t) => `Partial<{ p: ${t} }>`],
+      ["exclude-left", (t) => `Exclude<${t}, null>`],
+      ["exclude-right", (t) => `Exclude<string | null, ${t}>`],
+      ["keyof", (t) => `keyof { p: ${t} }`],
+      ["indexed", (t) => `{ p: ${t}; q: 1 }["p"]`],
+    ];
+    let k = 0;
+    for (const [dn, d] of degenerate)
+      for (const [pn, pos] of positions) {
+        k++;
+        if (k % ctx.of !== ctx.shard) continue;
+        const text = `type Either<A, B> = A | B;\ntype Box<T> = { v: T };\nenum E { A = "a" }\ntype D = ${d};\nexport const P = parse.buildParsers<{ X: ${pos(d)} }>();\n`;
+        ctx.count("degenerate-grid");
+        await judge(ctx, { files: { "entry.ts": text }, settings: { string_formats: [], number_formats: [] } }, `degenerate:${dn}/${pn}`);
+      }
+  }
   // supported programs (success path: load + closure walk on realistic output)
   const nSup = ctx.share(1600, 24000);
   for await (const item of corpus(ctx, { label: "C04-supported", count: nSup, features: {} })) {
